@@ -355,6 +355,15 @@ class Interp:
             return SGen(run)
         if "expect" in f.decorators:
             self.expect_pre(f, args)
+        if "only" in f.decorators and not f.is_lambda:
+            # flowfilter.only(*types): the wrapper returns False unless isinstance(flow, types) (type guard, interpreted)
+            for d in f.node.decorator_list:
+                if isinstance(d, ast.Call) and _dec_name(d) == "only":
+                    classes = [self.resolve(self.eval_in_module(a, f)) for a in d.args]
+                    if len(args) < 2 or not all(isinstance(c, SConst) and isinstance(c.obj, type) for c in classes):
+                        raise Unsupported(f"@only guard on {key}")
+                    if not any(isa(self.resolve(args[1]), c.obj) for c in classes):
+                        return SBool(False)
         if f.is_async:
             # coroutine functions run eagerly when called (calls are immediately awaited in the contracted code); their
             # `await`s on environment awaitables go to the enclosing consumer like yields (suspension points)
